@@ -71,10 +71,10 @@ def setup():
               R=float(cst.earth_radius) / 1000.0)
 
 
-def gen_dataset(tape, did):
+def gen_dataset(tape, did, force_big=False):
     d = {"id": did}
     d["layout"] = tape.pick(["linear", "linear", "grid"], "layout")
-    big = tape.flag("big", 1, 150)
+    big = force_big or tape.flag("big", 1, 300)
     d["big"] = big
     if big:
         d["n"] = 1001 + tape.choice(300, "nbig")
@@ -161,10 +161,14 @@ def materialise(d, perturb=0.0):
 
 def gen_workload(tape):
     w = {}
-    npool = tape.count(2, 4, "npool", (1, 2))
-    w["pool"] = [gen_dataset(tape, i) for i in range(npool)]
+    # dedicated runs for the temporally pre-binned path (> 10^6 candidate
+    # pairs): two large datasets, two calls, all bin factors incl. < 1
+    bigrun = tape.flag("bigrun", 1, 25)
+    w["bigrun"] = bigrun
+    npool = 2 if bigrun else tape.count(2, 4, "npool", (1, 2))
+    w["pool"] = [gen_dataset(tape, i, force_big=bigrun) for i in range(npool)]
     calls = []
-    for k in range(tape.count(2, 7, "ncalls", (3, 4))):
+    for k in range(2 if bigrun else tape.count(2, 7, "ncalls", (3, 4))):
         c = {}
         mode = tape.pick(["fresh", "repeat", "swap", "perturb", "fresh"], "cmode") if k else "fresh"
         c["mode"] = mode
@@ -177,7 +181,13 @@ def gen_workload(tape):
         c["mi_as"] = tape.pick(["number", "string", "timedelta"], "mi_as")
         c["md_as"] = tape.pick(["number", "km", "m"], "md_as")
         c["window"] = tape.pick([None, None, [600, 5000], [0, 3600], [3000, 3001]], "window")
-        c["bin_factor"] = tape.pick([1, 2, 10], "bf")
+        c["bin_factor"] = tape.pick([1, 2, 10, 0.5, 0.25, 3], "bf")
+        if bigrun:
+            c["p"], c["s"] = (0, 1) if k == 0 else (1, 0)
+            c["mode"] = "fresh"
+            c["mi"] = tape.pick([60, 600, 10, 300], "bigmi")
+            c["rmode"] = "between"
+            c["window"] = None
         c["magnitude_factor"] = tape.pick([10, 1, 2, 100], "mf")
         c["leaf_size"] = tape.pick([40, 1, 3], "leaf")
         c["named"] = tape.flag("named", 1, 2)
